@@ -34,6 +34,10 @@ static PHASE: AtomicUsize = AtomicUsize::new(0);
 static SP0: AtomicUsize = AtomicUsize::new(0);
 static STACK_LIMIT: AtomicUsize = AtomicUsize::new(8 << 20);
 static INSTALLED: AtomicBool = AtomicBool::new(false);
+/// CPU clock of the main thread (the thread that runs the engine code) and its reading at `arm`
+static MAIN_CLOCK: AtomicUsize = AtomicUsize::new(0);
+static MAIN_CPU0_MS: AtomicUsize = AtomicUsize::new(0);
+static BUDGET_MS: AtomicUsize = AtomicUsize::new(0);
 
 static mut EXE: *const libc::c_char = std::ptr::null();
 static mut ARGV: [*const libc::c_char; 4] = [std::ptr::null(); 4];
@@ -52,6 +56,10 @@ pub fn install(worker_id: &str) {
         let mut rl: libc::rlimit = std::mem::zeroed();
         if libc::getrlimit(libc::RLIMIT_STACK, &mut rl) == 0 && rl.rlim_cur != libc::RLIM_INFINITY {
             STACK_LIMIT.store(rl.rlim_cur as usize, Ordering::Relaxed);
+        }
+        let mut cid: libc::clockid_t = 0;
+        if libc::pthread_getcpuclockid(libc::pthread_self(), &mut cid) == 0 {
+            MAIN_CLOCK.store(cid as usize, Ordering::Relaxed);
         }
         let exe = std::env::current_exe().ok().and_then(|p| CString::new(p.to_string_lossy().as_bytes()).ok());
         if let Some(exe) = exe {
@@ -78,6 +86,18 @@ pub fn install(worker_id: &str) {
         libc::sigemptyset(&mut sp.sa_mask);
         libc::sigaction(libc::SIGPROF, &sp, std::ptr::null_mut());
     }
+}
+
+/// CPU time consumed by the main thread so far (ms); async-signal-safe
+pub fn main_thread_cpu_ms() -> u64 {
+    let mut ts = libc::timespec { tv_sec: 0, tv_nsec: 0 };
+    let cid = MAIN_CLOCK.load(Ordering::Relaxed) as libc::clockid_t;
+    unsafe {
+        if cid == 0 || libc::clock_gettime(cid, &mut ts) != 0 {
+            libc::clock_gettime(libc::CLOCK_PROCESS_CPUTIME_ID, &mut ts);
+        }
+    }
+    ts.tv_sec as u64 * 1000 + ts.tv_nsec as u64 / 1_000_000
 }
 
 fn set_prof_timer(ms: u64) {
@@ -108,6 +128,8 @@ pub fn arm_with_watchdog(lines: &[String], hang_lines: &[String], cpu_budget_ms:
     }
     arm(lines);
     if installed() {
+        MAIN_CPU0_MS.store(main_thread_cpu_ms() as usize, Ordering::SeqCst);
+        BUDGET_MS.store(cpu_budget_ms as usize, Ordering::SeqCst);
         set_prof_timer(cpu_budget_ms);
     }
 }
@@ -178,6 +200,14 @@ extern "C" fn prof_handler(_sig: libc::c_int, _info: *mut libc::siginfo_t, _ctx:
         let p = PHASE.load(Ordering::SeqCst).min(NPHASE - 1);
         let n = HANG_LENS[p].load(Ordering::SeqCst);
         if !ARMED.load(Ordering::SeqCst) || n == 0 || EXE.is_null() {
+            return;
+        }
+        // The timer counts CPU time of the whole process (helper threads included). The verdict
+        // is about the thread that runs the statement: it must have burnt the budget itself.
+        let used = main_thread_cpu_ms().saturating_sub(MAIN_CPU0_MS.load(Ordering::SeqCst) as u64);
+        let budget = BUDGET_MS.load(Ordering::SeqCst) as u64;
+        if used < budget {
+            set_prof_timer((budget - used).max(200));
             return;
         }
         answer_and_reexec(std::ptr::addr_of!(HANG_LINES[p]) as *const u8, n);
